@@ -147,7 +147,16 @@ def inj_missing_required(src, rng):
     return src + rng.choice(['<include/>', '<import/>', '<wxs src="a"/>', '<wxs>exports.a=1</wxs>', '<include src=""/>'])
 
 
+def inj_binding_in_static_attr(src, rng):
+    """a binding in an attribute that takes static text only, behind text whose UTF-8, UTF-16 and character counts all differ, also on a later line of
+    the value (round 11, C15-12: the location of the diagnostic is computed from the place of the binding)"""
+    pre = rng.choice(["中文键", "\U0001F600\U0001F600\U0001F600", "é", "a\n\U0001F600b", "中\n\n文", "x", ""])
+    return src + rng.choice(['<v wx:for="{{l}}" wx:key="%s{{i}}"/>', '<c generic:item="%s{{g}}"/>', '<include src="%s{{s}}"/>', '<template name="%s{{n}}">x</template>',
+                             '<wxs module="zq" src="%s{{s}}"/>', '<import src="%s{{s}}"/>', '<v worklet:w="%s{{f}}"/>', '<v wx:if="{{a}}"/><v wx:else="%s{{b}}"/>']) % pre
+
+
 INJECTIONS = [
+    ("binding in a static-only attribute", inj_binding_in_static_attr, {"DataBindingNotAllowed", "InvalidAttributeValue", "InvalidAttribute", "InvalidIdentifier", "InvalidScopeName"}, NOTE),
     ("missing end tag", inj_missing_end, {"MissingEndTag", "InvalidEndTag"}, WARN),
     ("unterminated tag", inj_unterminated_tag, {"IncompleteTag", "MissingEndTag", "UnexpectedCharacter"}, ERROR),
     ("unterminated {{", inj_unterminated_binding, {"MissingExpressionEnd", "IncompleteTag", "UnexpectedExpressionCharacter", "EmptyExpression"}, WARN),
